@@ -533,6 +533,8 @@ def _get_spendable_utxos(transaction: sqlite3.Connection, accounts: List, decode
             # cache the decoded transaction
             decoded_transactions[txid] = Transaction(raw)
         decoded_tx = decoded_transactions[txid]
+        if amount <= Input.spend(decoded_tx.outputs[nout]).size * fee_per_byte:
+            continue  # costs more to spend than it is worth
         # save the unconfirmed txo for possible use later, if still needed
         if verified:
             # add the txo to the reservation, minus the fee for including it
